@@ -347,9 +347,42 @@ def rule_xport(m):
                                             defs = var_defs(f, c[1])
                                             inits0 = [d for d in defs if d[1] >= 0 and strip_cast(tt.t(d[1])) == ('int', 0)]
                                             incs = [d for d in defs if d[1] == -2]
-                                            if len(inits0) == 1 and len(incs) == 1 and incs[0][0] in body and \
+                                            if len(inits0) == 1 and len(incs) == 1 and incs[0][0] in body and _unit_increment(f, incs[0][0]) and \
                                                     not (f.region(incs[0][0]) - f.region(n['loopvarstmt'])):
                                                 okm = True
+                                if not okm:
+                                    # the same pass written as std::for_each(S.begin(), S.end(), [&](VertexIndex v) {...})
+                                    for cn in f.nodes:
+                                        ct = tt.t(cn['i']) if cn['k'] == 'CallExpr' else None
+                                        if not ct or ct[0] != 'call' or ct[1] != 'std::for_each' or len(ct[2]) != 3:
+                                            continue
+                                        b, e, lam = ct[2]
+                                        while lam[0] in ('ctor', 'cast') and lam[2]:
+                                            lam = lam[2][0] if lam[0] == 'ctor' else lam[2]
+                                        if not (b[0] == 'mcall' and b[1].endswith(('::begin', '::cbegin')) and b[2] == S and
+                                                e[0] == 'mcall' and e[1].endswith(('::end', '::cend')) and e[2] == S and lam[0] == 'lambda'):
+                                            continue
+                                        L = f.unit.function_for_decl(lam[1])
+                                        if L is None or len(L.params) != 1:
+                                            continue
+                                        ltt = Terms(L)
+                                        v = ('var', L.params[0])
+                                        for x in L.nodes:
+                                            if x['k'] not in ('BinaryOperator', 'CXXOperatorCallExpr'):
+                                                continue
+                                            t = ltt.t(x['i'])
+                                            if t[0] != 'bin' or t[1] != '=':
+                                                continue
+                                            if t[2] == ('idx', mp, v) and t[3][0] == 'un' and t[3][1] == '++' and t[3][2] and t[3][3][0] == 'var':
+                                                t = (t[0], t[1], t[2], t[3][3])
+                                            if t[2] == ('idx', mp, v) and t[3][0] == 'var':
+                                                c = t[3]
+                                                inits0 = [d for d in var_defs(f, c[1]) if d[1] >= 0 and strip_cast(tt.t(d[1])) == ('int', 0)]
+                                                incs = [d for d in var_defs(L, c[1]) if d[1] == -2]
+                                                others = [d for d in var_defs(f, c[1]) if d not in inits0]
+                                                if len(inits0) == 1 and len(incs) == 1 and _unit_increment(L, incs[0][0]) and not others and not L.region(incs[0][0]) \
+                                                        and len(var_defs(L, c[1])) == 1 and not f.region(cn['i']):
+                                                    okm = True
                                 if not okm:
                                     why = 'the remap is not built by one pass over the set with a counter incremented once per element'
             if why:
@@ -538,6 +571,16 @@ def _elem_type_mismatch(f, container_ctype, loopvar):
     if not lt0.startswith(('std::pair<', 'std::tuple<')):
         return None
     return None if lt0 == elem else lt.strip()
+
+
+def _unit_increment(f, nid):
+    """the modification is `++x`, `x++` or `x += 1`"""
+    n = f.nodes[nid]
+    if n['k'] == 'UnaryOperator':
+        return n.get('op') == '++'
+    if n['k'] in ('CompoundAssignOperator', 'BinaryOperator') and n.get('op') == '+=':
+        return strip_cast(Terms(f).t(n['c'][1])) == ('int', 1)
+    return False
 
 
 def _get_index(f, argnode):
